@@ -5,6 +5,8 @@ cd "$(dirname "$0")/.."
 export GOFLAGS=-mod=mod GOPROXY=off GOSUMDB=off GOTOOLCHAIN=local
 for d in seeded/*${1:-}*/; do
   name=$(basename $d); id=${name%%-*}
+  # a seed that is reported by another property's check names it in meta.json ("sweep_check")
+  alt=$(python3 -c "import json;print(json.load(open('$d/meta.json')).get('sweep_check',''))" 2>/dev/null); [ -n "$alt" ] && id=$alt
   M=$(mktemp -d /tmp/seedsweep-XXXX)
   rsync -a --exclude .git /repo/ "$M/"
   if ! ( cd "$M" && git apply "$OLDPWD/$d/patch.diff" 2>/dev/null ); then echo "$name PATCH-DOES-NOT-APPLY"; rm -rf "$M"; continue; fi
